@@ -18,7 +18,7 @@ CHECKS = {
             "Held on the generated inputs only; integer categories; N=0 without common/mapping is refused by contract and not generated.",
             "DESIGN.md section 2 C01"),
     "C02": ("exploration",
-            "differential monitor: brute-force dense group-by over the dense twins vs the real count cube, integer exact",
+            "differential monitor: brute-force dense group-by over the dense twins vs the real count cube, integer exact; twin cases (same structural signature, other content) judged straight after one another",
             "Thousands (quick) to 1.5*10^5 (thorough) cubes of 0-4 constructor-built index dimensions (1-3 axes, any common "
             "incl. absent and = extent, padded/inferred shapes, boundary extents) are counted by the real ccube and compared "
             "cell by cell (value and missing flag, both report formats) with a contingency table computed from the dense "
@@ -30,7 +30,7 @@ CHECKS = {
             "For every generated input (cube x fact form x weight form x policy x dtype class x explicit/inferred shape) the "
             "four shared aggregates of the index cube and of two array cubes are compared with a direct per-cell computation "
             "over the dense rows: missing sets exactly, values within 1e-9 of the grand total.",
-            "Sampled inputs; weights >= 0 and never tiny-positive.",
+            "Sampled inputs; weights >= 0 incl. zeros, all-tiny weights (x 2^-30, 2^-40) and cells of very unequal weight; evaluation with the pool on and through untraced function objects are part of the input.",
             "DESIGN.md section 2 C03"),
     "C04": ("exploration",
             "reference rule monitor: the stated missing-cell rule evaluated per cell; three report formats cross-compared",
@@ -62,7 +62,7 @@ CHECKS = {
             "Transient states inside operations are not inspected; sampled histories.",
             "DESIGN.md section 2 C07"),
     "C08": ("exploration",
-            "set-algebra oracle over an exhaustive small-universe enumeration + in-situ kernel-call monitor",
+            "set-algebra oracle over an exhaustive small-universe enumeration + in-situ kernel-call monitor + concurrent-threads workload with an overlap counter",
             "All ordered pairs of subsets of a 7- (quick) / 10-element (thorough) universe under four order-preserving "
             "embeddings into uint32 (incl. 0 and 2^32-1) through the three kernels and three wrappers, structured random "
             "arrays up to 10^5 elements, the None/copy conventions, multi-way unions, and every kernel call made by real "
@@ -70,7 +70,7 @@ CHECKS = {
             "Exhaustive only within the stated universe; random beyond it.",
             "DESIGN.md section 2 C08"),
     "C09": ("exploration",
-            "sanitizers: AddressSanitizer+UBSan rebuild and bounds-checked rebuild of the working-tree .pyx, stderr-growth monitor per call",
+            "sanitizers: AddressSanitizer+UBSan rebuild and bounds-checked rebuild of the working-tree .pyx, stderr-growth monitor per call, also under concurrent threads",
             "Every ordered pair of subsets of a 6- (quick) / 8-element (thorough) universe, each operand presented as own "
             "allocation / view inside a larger buffer / strided view / read-only array, runs through the kernels of an "
             "ASan+UBSan build (red zones around each NumPy allocation; report tied to the call in flight; a libc over-read "
@@ -80,7 +80,7 @@ CHECKS = {
             "escape the bounds-checked build, intra-buffer overruns escape ASan.",
             "DESIGN.md section 2 C09"),
     "C10": ("exploration",
-            "round-trip monitor on real files over word-size/arity/emptiness classes",
+            "round-trip monitor on real files over word-size/arity/emptiness classes; twin files and earlier results re-read after later loads",
             "Generated entry sets (arity 1-4, 0-5000 entries, coordinate and common magnitudes drawn independently from "
             "the four word-size classes, empty and long row-id arrays, ids to 2^32-1) and well-formed indexes are saved to "
             "real files and loaded back; common, key set, key element types, association, array dtype and content, and the "
@@ -133,7 +133,7 @@ CHECKS = {
             "Schedules are sampled, not enumerated; whole NumPy/kernel calls are atomic under the controlled scheduler.",
             "DESIGN.md section 2 C16"),
     "C17": ("exploration",
-            "byte-snapshot monitor of every argument around every entry point + result comparison across repeated/permuted/reused calls",
+            "byte-and-flag snapshot monitor of every argument around every entry point + result comparison across repeated/permuted/reused calls; returned arrays re-read after every later call; arguments edited in place between calls vs fresh copies",
             "Deep snapshots (dtype, shape, bytes, dict order, index attributes) of all arguments are compared before/after "
             "construction, calculate, the shortcut methods, walk and the non-mutating index methods; calculate(list) is "
             "compared with each function alone, all permutations (<=4), a repeated call, and reuse of the same objects on "
